@@ -244,6 +244,7 @@ def parse_fn_header(p, f):
 
 def parse_module(text):
     m = Module()
+    m.memptr_fns = sorted(set('@' + n for n in re.findall(r'ptrtoint \([^@()]*(?:\([^()]*\))?[^@()]*\*? @("?[-a-zA-Z$._0-9]+"?) to i64\)', text)))
     m.dilocals = dict(re.findall(r'^(![0-9]+) = !DILocalVariable\(name: "([^"]+)"', text, re.M))
     for ent in split_top(text):
         if ent.startswith('%'):
@@ -495,6 +496,8 @@ class Emitter:
     prefix = ''
     loopcuts = {}
     extra_protos = {}
+    memptr_called = set()
+    memptr_generic = False
     def __init__(s, m, stubs):
         s.m = m; s.stubs = stubs
         s.lit = collections.OrderedDict()      # key -> (cname, kind, ty)
@@ -888,7 +891,14 @@ class Emitter:
                 tmps.append((pi, tn))
             for pi, tn in tmps: st.append('v_%s = %s;' % (cid(pi.res), tn))
             return '{ %s goto %s; }' % (' '.join(st), L(to))
-        s.typed_new = {}
+        s.typed_new = {}; s.inttoptr_src = {}
+        for lab, inss in blocks:
+            for ins in inss:
+                if ins.op == 'cast' and ins.cop == 'inttoptr' and ins.res: s.inttoptr_src[ins.res] = ins.a
+        s.phi_memptr = set()
+        for lab, inss in blocks:
+            for ins in inss:
+                if ins.op == 'phi' and any(v.kind == 'local' and v.name in s.inttoptr_src for (v, l) in ins.inc): s.phi_memptr.add(ins.res)
         for lab, inss in blocks:
             for ins in inss:
                 if ins.op == 'cast' and ins.cop == 'bitcast' and ins.a.kind == 'local' and isinstance(ins.ty, PtrTy) and isinstance(s.resolve(ins.ty.to), StructTy):
@@ -987,7 +997,7 @@ class Emitter:
                 elif op == 'fence': body.append('__vf_fence();')
                 elif op == 'cmpxchg':
                     decls[r] = s.ctype(StructTy([ins.ty, IntTy(1)]))
-                    body.append('__CPROVER_atomic_begin(); %s.f0 = *%s; %s.f1 = (%s.f0 == %s); if (%s.f1) *%s = %s; __CPROVER_atomic_end();' %
+                    body.append('VF_ATOMIC_BEGIN(); %s.f0 = *%s; %s.f1 = (%s.f0 == %s); if (%s.f1) *%s = %s; VF_ATOMIC_END();' %
                                 (r, s.expr(ins.a), r, r, s.expr(ins.c, ins.ty), r, s.expr(ins.a), s.expr(ins.n, ins.ty)))
                 elif op == 'atomicrmw':
                     decls[r] = s.ctype(ins.ty)
@@ -996,7 +1006,7 @@ class Emitter:
                     if o: upd = '*%s = %s;' % (p_, s.mask('%s %s %s' % (r, o, s.expr(ins.v, ins.ty)), ins.ty))
                     elif ins.rop == 'xchg': upd = '*%s = %s;' % (p_, s.expr(ins.v, ins.ty))
                     else: raise NotImplementedError('atomicrmw ' + ins.rop)
-                    body.append('__CPROVER_atomic_begin(); %s = *%s; %s __CPROVER_atomic_end();' % (r, p_, upd))
+                    body.append('VF_ATOMIC_BEGIN(); %s = *%s; %s VF_ATOMIC_END();' % (r, p_, upd))
                 else:
                     raise NotImplementedError(op)
         for nm, ct in decls.items():
@@ -1066,6 +1076,28 @@ class Emitter:
             else:
                 call = '%s(%s)' % (s.fname(c.name), ', '.join(A))
             s.called.add(c.name)
+        elif c.kind == 'local' and (c.name in getattr(s, 'inttoptr_src', {}) or c.name in getattr(s, 'phi_memptr', ())) and s.m.memptr_fns:
+            # call through a pointer-to-member-function (non-virtual arm): the integer is one of the functions whose
+            # address is materialised by ptrtoint somewhere in the module -> explicit dispatch by address, so CBMC does
+            # not fan out to every signature-compatible function
+            src = '(uint64_t)' + s.expr(c)
+            cands = [fn for fn in s.m.memptr_fns if fn in s.m.fns and len(s.m.fns[fn].params) == len(args) and s.m.fns[fn].body is not None]
+            has_ret = r is not None and not isinstance(ins.ret, VoidTy)
+            if has_ret: decls[r] = s.ctype(ins.ret)
+            parts = []
+            for fn in cands:
+                f2 = s.m.fns[fn]
+                AA = [('(%s)%s' % (s.ctype(f2.params[i][0]), a)) if isinstance(s.resolve(f2.params[i][0]), PtrTy) else a for i, a in enumerate(A)]
+                cl = '%s(%s)' % (s.fname(fn), ', '.join(AA))
+                if has_ret and isinstance(s.resolve(ins.ret), PtrTy): cl = '(%s)%s' % (s.ctype(ins.ret), cl)
+                parts.append('if (%s == (uint64_t)&%s) { %s%s; }' % (src, s.fname(fn), (r + ' = ') if has_ret else '', cl))
+                s.called.add(fn); s.memptr_called.add(fn)
+            ft = ins.fnty or FnTy(ins.ret, [a.ty for a in args], False)
+            gen = '((%s)%s)(%s)' % (s.fnptr(ft), s.expr(c), ', '.join(A))
+            if s.memptr_generic: parts.append('{ %s%s; } /* virtual arm / unknown target: generic indirect call */' % ((r + ' = ') if has_ret else '', gen))
+            else: parts.append('{ __CPROVER_assert(0, "member-function pointer is virtual or outside the address-taken set (harness uses non-virtual callbacks only)"); __CPROVER_assume(0); }')
+            body.append(' else '.join(parts))
+            return
         else:
             # indirect
             ft = ins.fnty or FnTy(ins.ret, [a.ty for a in args], False)
@@ -1087,8 +1119,10 @@ class Emitter:
             f = s.m.fns.get(fnm)
             if f is None or f.body is None: fn_out[fnm] = None; continue
             s.called = set()
+            s.memptr_called = set()
             code = s.emit_fn(f)
             fn_out[fnm] = code
+            work += list(s.memptr_called)
             # scan body text for global refs (functions taken by address, globals)
             for g in set(re.findall(r'@(?:"(?:[^"\\]|\\.)*"|[-a-zA-Z$._0-9]+)', f.body)):
                 if g in s.m.fns: work.append(g)
@@ -1136,15 +1170,44 @@ class Emitter:
             if gd.get('alias'): continue
             nm = 'g_' + cid(g)
             if gd['ext'] or gd['init'] is None:
-                gdecl.append('extern %s %s;' % (s.ctype(gd['ty']), nm))
+                rt = s.resolve(gd['ty'])
+                if g.startswith('@_ZTV') and not isinstance(rt, ArrTy):
+                    gdecl.append('%s %s[16];  /* external vtable: only its address (+ small offset) is used */' % (s.ctype(gd['ty']), nm))
+                elif isinstance(rt, ArrTy) and rt.n == 0:
+                    # external table of unknown length (libsupc++ typeinfo vtables, ...): only its address (+ small offset) is used
+                    gdecl.append('%s %s[16];' % (s.ctype(rt.el), nm))
+                else:
+                    gdecl.append('extern %s %s;' % (s.ctype(gd['ty']), nm))
             else:
                 cq = 'const ' if gd['const'] else ''
                 gdecl.append('extern %s%s %s;' % (cq, s.ctype(gd['ty']), nm))
                 gdef.append('%s%s %s = %s;' % (cq, s.ctype(gd['ty']), nm, s.const_init(gd['init'], gd['ty'])))
+        # typeinfo ancestry (transitive, reflexive) for the exception model: rows (ti, ancestor)
+        def ti_refs(v):
+            out = []
+            if v is None: return out
+            if v.kind == 'global' and v.name.startswith('@_ZTI'): out.append(v.name)
+            for k in ('els', 'ops'):
+                for e in getattr(v, k, []) or []: out += ti_refs(e)
+            if hasattr(v, 'a') and isinstance(getattr(v, 'a'), V): out += ti_refs(v.a)
+            return out
+        parents = {}
+        for g, gd in gl_out.items():
+            if g.startswith('@_ZTI') and gd.get('init') is not None and getattr(gd['init'], 'els', None):
+                parents[g] = [r for e in gd['init'].els[2:] for r in ti_refs(e)]
+        rows = []
+        for g in [g for g in gl_out if g.startswith('@_ZTI')]:
+            seen = []; work = [g]
+            while work:
+                x = work.pop()
+                if x in seen: continue
+                seen.append(x); work += parents.get(x, [])
+            rows += [(g, a) for a in seen if a in gl_out]
+        ti_tab = 'const struct { const void *ti; const void *anc; } __vf_ti_tab[] = { %s{0, 0} };' % ''.join('{&g_%s, &g_%s}, ' % (cid(a), cid(b)) for a, b in rows)
         types = s.emit_type_section()
         protos += list(s.extra_protos.values())
         out = ['#include <stdint.h>', '#include <stddef.h>', '#include "vf_rt.h"', 'void *memcpy(void*, const void*, size_t); void *memmove(void*, const void*, size_t); void *memset(void*, int, size_t);', '']
-        out += types + [''] + protos + [''] + gdecl + [''] + gdef + ['']
+        out += types + [''] + protos + [''] + gdecl + [''] + gdef + ['', ti_tab, '']
         undefined = []
         for fnm, code in fn_out.items():
             if code is None: undefined.append(fnm)
@@ -1169,6 +1232,7 @@ def main():
     ap.add_argument('--model', action='append', default=[])
     ap.add_argument('--stubfile', action='append', default=[])
     ap.add_argument('--prefix', default='')
+    ap.add_argument('--provided', action='append', default=[], help='external symbol defined by the harness (no trap stub)')
     ap.add_argument('--loopcut', action='append', default=[], help='fn:hook:var1,var2,... (needs -g IR)')
     a = ap.parse_args()
     m = parse_module(open(a.ll).read())
@@ -1191,7 +1255,7 @@ def main():
     for lc in a.loopcut:
         fn, hook, vs = lc.split(':'); e.loopcuts.setdefault(fn, []).append(dict(hook=hook, vars=vs.split(',')))
     code, undefined = e.emit(['@' + r for r in a.roots.split(',')])
-    modeled = set()
+    modeled = set('x_' + cid('@' + n) for n in a.provided)
     mtext = ''
     for mf in a.model:
         t = open(mf).read(); mtext += '\n/* ---- model %s ---- */\n' % mf + t
